@@ -239,6 +239,12 @@ impl Scenario for C10 {
                     }
                 }
             }
+            if rng.chance(1, 30) {
+                // thousands of blank or white-space-only lines in front (a limit counted in bytes bites in UTF-16 first)
+                let n = *rng.pick(&[600usize, 1100, 1500, 2500, 3000, 5000, 9000]);
+                let unit = *rng.pick(&["\n", "\r\n", " \n"]);
+                t.insert_str(0, &unit.repeat(n / unit.len().max(1)));
+            }
             if rng.chance(1, 25) {
                 // the text itself begins with U+FEFF (one or two of them), in front of whatever came first
                 t.insert_str(0, if rng.chance(1, 3) { "\u{feff}\u{feff}" } else { "\u{feff}" });
